@@ -77,6 +77,7 @@ Proof.
   - destruct (coll_id s name); [exact Hs | exact Hs].
   - destruct (String.eqb name default_coll); [exact Hs|].
     destruct (coll_id s name); [|exact Hs]. unfold store_ok; cbn. apply Forall_filter. exact Hs.
+  - destruct (coll_id s coll); exact Hs.
   - pose proof (expire_colls_ok x (map fst (s_colls s)) s [] Hs) as H.
     destruct (expire_colls s x (map fst (s_colls s)) []) as [s' evs]. exact H.
 Qed.
@@ -168,7 +169,7 @@ Qed.
 Lemma kv_step_sound rc : rc_sound rc -> forall s x o colls keys xn, store_ok s -> wf_sop o ->
   let res := sstep s x o in
   kv_step rc (snap s colls keys xn) x o
-    (mkOstep (sr_resp res) (fevents_of (sr_events res)) (snap (sr_store res) colls keys xn)) = true.
+    (mkOstep (sr_resp res) (fevents_of (sr_events res)) (sr_dump res) (snap (sr_store res) colls keys xn)) = true.
 Proof.
   intros Hrc s x o colls keys xn Hs Hwf. cbv zeta. destruct o; cbn [kv_step]; try reflexivity.
   cbn [os_snap os_resp os_live].
